@@ -10,6 +10,9 @@ from gen import structures as st
 ALL_FEATURES = ["HFSM2_ENABLE_UTILITY_THEORY", "HFSM2_ENABLE_PLANS", "HFSM2_ENABLE_SERIALIZATION",
                 "HFSM2_ENABLE_TRANSITION_HISTORY", "HFSM2_ENABLE_STRUCTURE_REPORT", "HFSM2_ENABLE_LOG_INTERFACE"]
 
+# per-program exploration deadline of the thorough tier (seconds); a program that hits it is reported with deadline_hit / exhaustive:false
+TD = int(os.environ.get("VERIF_THOROUGH_DEADLINE", "900"))
+
 CLS = dict(REQ=1, GUARD=2, CONSUME=4, STATUS=8, PLANEDIT=16, PLANRESULT=32, SELECT=64, UTIL=128, RNG=256, QUERY=512,
            RANK=1024)
 
